@@ -239,7 +239,11 @@ func ruleC08Callbacks(c *Checker) {
 		if !isCb {
 			return
 		}
-		mc, ok := st.Val.(*ssa.MakeClosure)
+		stv := st.Val
+		if ct, isCT := stv.(*ssa.ChangeType); isCT {
+			stv = ct.X // a named function type for the callback field
+		}
+		mc, ok := stv.(*ssa.MakeClosure)
 		if !ok {
 			// nil stored after the finder has returned is the disabling written out where disable() was called
 			if isNilConst(st.Val) {
@@ -1560,7 +1564,7 @@ func ruleC18DirName(c *Checker) {
 			v := mu.Value
 			vpT, _ := condEdges(fn, func(x ssa.Value) bool {
 				cl, ok := x.(*ssa.Call)
-				return ok && isFunc(calleeObj(cl), "io/fs", "ValidPath") && canon(cl.Call.Args[0]) == canon(v)
+				return ok && isFunc(calleeObj(cl), "io/fs", "ValidPath") && samePureValue(cl.Call.Args[0], v, 0)
 			})
 			c.check(guarded(mu.Block(), vpT), R, name, "directory name is a valid path", pos, "past fs.ValidPath(name) (no '..', no empty or absolute names)", "a manifest can name a package directory that is not a valid relative path ('..' climbs out of the bundle)")
 			_, dotF := condEdges(fn, func(x ssa.Value) bool {
@@ -1569,14 +1573,14 @@ func ruleC18DirName(c *Checker) {
 					return false
 				}
 				s, ok := constString(bo.Y)
-				return ok && s == "." && canon(bo.X) == canon(v)
+				return ok && s == "." && samePureValue(bo.X, v, 0)
 			})
 			c.check(guarded(mu.Block(), dotF), R, name, "directory name is not '.'", pos, "past the != \".\" edge", "a manifest can name '.' as a package directory (the bundle root itself)")
 			_, sepF := condEdges(fn, func(x ssa.Value) bool {
 				// IndexByte(v,'/') >= 0 ; Contains(v,"/") ; Index(v,"/") >= 0 / != -1
 				if cl, ok := x.(*ssa.Call); ok {
 					o := calleeObj(cl)
-					if (isFunc(o, "strings", "Contains") || isFunc(o, "strings", "ContainsRune") || isFunc(o, "strings", "ContainsAny")) && canon(cl.Call.Args[0]) == canon(v) {
+					if (isFunc(o, "strings", "Contains") || isFunc(o, "strings", "ContainsRune") || isFunc(o, "strings", "ContainsAny")) && samePureValue(cl.Call.Args[0], v, 0) {
 						return true
 					}
 				}
@@ -1589,7 +1593,7 @@ func ruleC18DirName(c *Checker) {
 					return false
 				}
 				o := calleeObj(cl)
-				if !(isFunc(o, "strings", "IndexByte") || isFunc(o, "strings", "Index") || isFunc(o, "strings", "IndexRune")) || canon(cl.Call.Args[0]) != canon(v) {
+				if !(isFunc(o, "strings", "IndexByte") || isFunc(o, "strings", "Index") || isFunc(o, "strings", "IndexRune")) || !samePureValue(cl.Call.Args[0], v, 0) {
 					return false
 				}
 				k, isC := constInt(bo.Y)
@@ -1606,7 +1610,7 @@ func ruleC18DirName(c *Checker) {
 					return false
 				}
 				o := calleeObj(cl)
-				if !(isFunc(o, "strings", "IndexByte") || isFunc(o, "strings", "Index") || isFunc(o, "strings", "IndexRune")) || canon(cl.Call.Args[0]) != canon(v) {
+				if !(isFunc(o, "strings", "IndexByte") || isFunc(o, "strings", "Index") || isFunc(o, "strings", "IndexRune")) || !samePureValue(cl.Call.Args[0], v, 0) {
 					return false
 				}
 				k, isC := constInt(bo.Y)
@@ -3456,4 +3460,34 @@ func ruleGuardOwnField(id string) func(*Checker) {
 			}
 		}
 	}
+}
+
+// samePureValue: a and b are the same SSA value, loads of the same location, or results of the same pure path /
+// string function applied to such arguments (filepath.ToSlash(x.f) computed once for the test and once for the use).
+func samePureValue(a, b ssa.Value, depth int) bool {
+	if canon(a) == canon(b) || sameLoc(a, b) {
+		return true
+	}
+	if depth > 3 {
+		return false
+	}
+	ca, okA := canon(a).(*ssa.Call)
+	cb, okB := canon(b).(*ssa.Call)
+	if !okA || !okB || calleeObj(ca) == nil || calleeObj(ca) != calleeObj(cb) {
+		return false
+	}
+	switch fullName(calleeObj(ca)) {
+	case "path/filepath.ToSlash", "path/filepath.FromSlash", "path/filepath.Clean", "path.Clean", "strings.TrimSpace", "strings.ToLower":
+	default:
+		return false
+	}
+	if len(ca.Call.Args) != len(cb.Call.Args) {
+		return false
+	}
+	for i := range ca.Call.Args {
+		if !samePureValue(ca.Call.Args[i], cb.Call.Args[i], depth+1) {
+			return false
+		}
+	}
+	return true
 }
